@@ -537,6 +537,10 @@ func run(c *vf.Ctx) {
 				} else {
 					c.Count("consistent_outcomes", 1)
 				}
+				if n, first := permittedButRefused(p.cs, o); n > 0 {
+					c.Count("obs_permitted_but_refused", n)
+					c.Seen("obs_permitted_but_refused_examples", o.Server+": "+first)
+				}
 			}
 			// git confirms: every violation key until it has been confirmed confirmCap times in this
 			// run (per key and storage), plus a deterministic sample of all cases.
